@@ -486,6 +486,8 @@ var bases = map[string][][2]string{
 		{"provides", `{"p1": "//q:pv1"}`}, {"binary", `True`}, {"sandbox", `True`}, {"output_dirs", `["od1"]`},
 		{"pass_env", `["VBASE"]`},
 	},
+	// a base whose labels already contain every string of the value alphabet: requires/labels interplay (AddRequire also adds a label)
+	"labelled": {{"cmd", `"c2"`}, {"labels", `["a", "b", "ab", "ba", "a=b", "=", "b=c", "c"]`}},
 	"text": {{"cmd", `"text_file"`}, {"_file_content", `"fc"`}, {"outs", `["o1"]`}, {"labels", `["l1"]`}},
 }
 
@@ -666,6 +668,9 @@ func main() {
 		bs := a.bases
 		if bs == nil {
 			bs = []string{"min", "rich"}
+		}
+		if a.name == "requires" {
+			bs = append(append([]string{}, bs...), "labelled")
 		}
 		nvals := 0
 		for _, base := range bs {
